@@ -3,6 +3,7 @@
 //	KeyCase     addrquota.ipKey (hook VerifC34IPKey) on generated address texts.
 //	QuotaCase   the real Quota.Blocked in real time: addresses of one /24 or /64 must share a bucket,
 //	            other groups must not; admitted counts checked by inequalities that cannot false-alarm.
+//	WaveCase    concurrent first-contact callers of one fresh group (lookup-or-create must be atomic).
 //	LimCase     the real packetlimiter.Limiter driven through VerifAccountAt (same locked body as Account,
 //	            caller-supplied clock) with generated timestamp/size sequences.
 //	AccountCase the real Limiter.Account (time.Now) in a tight burst that stayed well inside one window.
@@ -13,7 +14,10 @@ import (
 	"fmt"
 	"math/big"
 	"net/netip"
+	"runtime"
 	"strings"
+	"sync"
+	"sync/atomic"
 	"time"
 
 	"go.minekube.com/gate/pkg/edition/java/proxy"
@@ -357,7 +361,7 @@ func main() {
 	rng := lib.NewRng(f.Seed)
 	out := lib.NewOut("C34", f)
 	out.Imports = "From Verif Require Import Base.Ip Model.Limiter.\n"
-	out.Rule = "KeyCase: address texts (v4, v6 in several spellings, IPv4-mapped, zoned, garbage) and neighbours that differ in bit 23/24 (v4) or 63/64 (v6). QuotaCase: fresh Quota(eps, burst) fed burst+5 calls per text for 2-4 texts of one /24 or /64 (incl. mapped spellings) and one text of another group, admitted counts + measured elapsed ns. LimCase: limiter configs (packets and/or bytes, windows 1ms..60s, nil configs) x sequences {burst, steady, gap>window, resize runs of 9/17/33+ live points, packet/byte totals at rate*window-1/0/+1, expiry boundary, clock stepping back}. AccountCase: real Account in a tight burst. CounterCase: random updateAndAdd/expire/add. distinct = distinct Coq term; non-trivial = KeyCase with a parsable address; QuotaCase always; LimCase with a refusal or a resize; AccountCase valid; CounterCase with >= 9 ops"
+	out.Rule = "KeyCase: address texts (v4, v6 in several spellings, IPv4-mapped, zoned, garbage) and neighbours that differ in bit 23/24 (v4) or 63/64 (v6). WaveCase: concurrent first contact, 4 fresh groups per case, burst+3..9 goroutines call Blocked once each from different addresses of the group, parked behind the cache mutex or released by a spin barrier; allowed total per group. QuotaCase: fresh Quota(eps, burst) fed burst+5 calls per text for 2-4 texts of one /24 or /64 (incl. mapped spellings) and one text of another group, admitted counts + measured elapsed ns. LimCase: limiter configs (packets and/or bytes, windows 1ms..60s, nil configs) x sequences {burst, steady, gap>window, resize runs of 9/17/33+ live points, packet/byte totals at rate*window-1/0/+1, expiry boundary, clock stepping back}. AccountCase: real Account in a tight burst. CounterCase: random updateAndAdd/expire/add. distinct = distinct Coq term; non-trivial = KeyCase with a parsable address; QuotaCase always; LimCase with a refusal or a resize; AccountCase valid; CounterCase with >= 9 ops"
 
 	// ---- KeyCase ----
 	nKey := f.Count(150)
@@ -466,6 +470,101 @@ func main() {
 		}
 		out.Add(zterm(lib.App("QuotaCase", zs(int64(burst)), rnum.String(), rden.String(), zs(elapsed), lib.List(rs))),
 			map[string]any{"kind": "quota", "eps": eps, "burst": burst, "elapsed_ns": elapsed, "requests": desc}, true, tags...)
+	}
+
+	// ---- WaveCase: concurrent first contact ----
+	// For a fresh group (IPv4 /24 with plain and IPv4-mapped spellings, or IPv6 /64) n > burst goroutines
+	// call Blocked once each, from different addresses of the group, released together: either parked
+	// behind the cache mutex (hook VerifLockMu, deterministic) or by a spin barrier. The group as a whole
+	// must stay within burst + rate*elapsed: lookup-or-create of its bucket has to be atomic.
+	nWave := f.Count(40)
+	if runtime.GOMAXPROCS(0) < 8 {
+		defer runtime.GOMAXPROCS(runtime.GOMAXPROCS(8))
+	}
+	for i := 0; i < nWave; i++ {
+		r := rng.Fork()
+		eps := []float32{0.001, 0.01, 0.4}[r.Intn(3)]
+		burst := r.Range(2, 6)
+		q := proxy.VerifC34NewQuota(eps, burst, 0) // 0 = no LRU eviction
+		parked := r.Chance(2, 3)
+		tags := []string{"kind=wave"}
+		if parked {
+			tags = append(tags, "wave=parked-behind-mutex")
+		} else {
+			tags = append(tags, "wave=spin-barrier")
+		}
+		var rs []string
+		var desc []any
+		start := time.Now()
+		for g := 0; g < 4; g++ {
+			v4 := r.Bool()
+			var base netip.Addr
+			hostFrom := 64
+			if v4 {
+				base = genV4(r)
+				hostFrom = 24
+				tags = append(tags, "group=/24")
+			} else {
+				base = genV6(r)
+				tags = append(tags, "group=/64")
+			}
+			n := burst + r.Range(3, 9)
+			texts := make([]string, n)
+			for w := range texts {
+				texts[w], _ = text(r, randomizeFrom(r, base, hostFrom), false)
+			}
+			var allowed, ready atomic.Int64
+			var done sync.WaitGroup
+			done.Add(n)
+			if parked {
+				q.VerifLockMu()
+			}
+			for w := 0; w < n; w++ {
+				go func(ip string) {
+					defer done.Done()
+					ready.Add(1)
+					if !parked {
+						for spins := 0; ready.Load() < int64(n); spins++ {
+							if spins%1024 == 1023 {
+								runtime.Gosched()
+							}
+						}
+					}
+					if !q.Blocked(ip) {
+						allowed.Add(1)
+					}
+				}(texts[w])
+			}
+			if parked {
+				for ready.Load() < int64(n) {
+					runtime.Gosched()
+				}
+				time.Sleep(3 * time.Millisecond) // every caller is now parked on q.mu, for more than 1 ms
+				// Release and retake once: the woken waiter finds the mutex taken again after having
+				// waited > 1 ms, which switches sync.Mutex to FIFO hand-off (starvation mode); the
+				// whole wave is then served back to back, waiter by waiter.
+				q.VerifUnlockMu()
+				q.VerifLockMu()
+				time.Sleep(2 * time.Millisecond)
+				q.VerifUnlockMu()
+			}
+			done.Wait()
+			// the group's total goes on its first text; the other texts still take part in the grouping
+			for w, t := range texts {
+				att, adm := 0, int64(0)
+				if w == 0 {
+					att, adm = n, allowed.Load()
+				}
+				rs = append(rs, fmt.Sprintf("(%s, %d, %d)", lib.Str(t), att, adm))
+			}
+			desc = append(desc, map[string]any{"group_of": texts[0], "members": texts, "callers": n, "allowed": allowed.Load()})
+		}
+		elapsedUpper := time.Since(start).Nanoseconds() + 1_000_000 // rounded up by 1 ms
+		rat := new(big.Rat).SetFloat64(float64(eps))
+		rnum := new(big.Int).Set(rat.Num())
+		rden := new(big.Int).Mul(rat.Denom(), big.NewInt(1_000_000_000))
+		out.Add(zterm(lib.App("WaveCase", zs(int64(burst)), rnum.String(), rden.String(), zs(elapsedUpper), lib.List(rs))),
+			map[string]any{"kind": "wave", "eps": eps, "burst": burst, "elapsed_upper_ns": elapsedUpper, "parked": parked, "groups": desc}, true, tags...)
 	}
 
 	// ---- LimCase ----
